@@ -221,6 +221,9 @@ func peerSession(rec *recorder, h *vhandler, sp *peerSpec, c net.Conn, rep *vsup
 	// sender
 	sent := 0
 	for _, n := range sp.segs {
+		if sp.sendOnly > 0 && sent >= sp.sendOnly {
+			break
+		}
 		b := make([]byte, n)
 		vsup.Fill(b, 1000+sp.id, sent)
 		rec.emit("PeerSend", "c", sp.id, "upto", sent+n)
@@ -587,6 +590,15 @@ func runServerScenario(t *testing.T, rec *recorder, cfg *sysCfg, seed uint64, sc
 			if sp.consume == "dribble" || sp.consume == "record" || sp.consume == "peekonly" {
 				sp.consume = "mixed"
 			}
+		}
+		if cfg.v6zone && i == 0 {
+			// first wave: a connection that ends with an unfinished stream sitting in its inbound buffer (the peer
+			// stops half way and closes, the handler only peeks): its pooled ring goes back with bytes in it
+			sp := specs[i]
+			sp.total, sp.sendOnly = 6000, 3000
+			sp.segs = []int{500, 500, 500, 500, 500, 500, 500, 500, 500, 500, 500, 500}
+			sp.lockstep, sp.consume, sp.reply, sp.shut = true, "peekonly", "none", "close"
+			sp.closeAt, sp.openOut, sp.asyncW, sp.wakes = -1, -1, 0, 0
 		}
 		if cfg.v6zone && i >= len(specs)/2 {
 			// second wave, after the first one has gone: connections reading small fixed-size records that arrive
